@@ -1,5 +1,6 @@
 import SvModel.Core.Pp
 import SvModel.Gen.PpKinds
+import SvModel.Lemmas.Walker
 /-!
 # C10 / C11 / C09 / C18 — decision logic of the walker, stated outright
 
@@ -141,5 +142,45 @@ theorem C10_include_line (C : Cfg) (recI) (recU) (inp : Input) (s path : Bytes) 
   split <;> simp [h]
 
 end
+
+
+/-! ## C11 on the walker model: what `define / `undef / `undefineall do to the table -/
+
+
+theorem pushLoc_defines (inp : Input) (path : Bytes) (w : WState) (x : Tree) : (pushLoc inp path w x).defines = w.defines := by
+  unfold pushLoc; split <;> rfl
+
+/-- `` `undefineall `` empties the table (only the SV_COV seeds are re-installed by the next file / expansion) -/
+theorem C11_undefineall_arm (C : Cfg) (recI) (recU) (inp : Input) (s path : Bytes) (ii sc : Bool) (rd id : Nat) (w w' : WState) (x : Tree)
+    (h : armUndefAll C recI recU inp s path ii sc rd id w x = .ok w') : w'.defines = [] := by
+  unfold armUndefAll at h; injection h with h; subst h; simp [pushLoc_defines]
+
+/-- `` `undef N `` removes exactly `N`: afterwards `N` is undefined and every other name is as before -/
+theorem C11_undef_arm (C : Cfg) (recI) (recU) (inp : Input) (s path : Bytes) (ii sc : Bool) (rd id : Nat) (w w' : WState) (x : Tree)
+    (h : armUndef C recI recU inp s path ii sc rd id w x = .ok w') :
+    w'.defines = w.defines.remove (undefName C.K inp x) ∧ w'.defines.get? (undefName C.K inp x) = none := by
+  unfold armUndef at h; injection h with h; subst h
+  refine ⟨by simp only [pushLoc_defines], ?_⟩
+  simp only [pushLoc_defines]
+  exact C11_get_remove_same _ _
+
+/-- `` `define N … `` of a name that is not predefined makes `N` defined, with `N` as its recorded identifier; of a predefined
+    name (`__LINE__`, `__FILE__`) it changes nothing -/
+theorem C11_define_arm (C : Cfg) (recI) (recU) (inp : Input) (s path : Bytes) (ii sc : Bool) (rd id : Nat) (w w' : WState) (x : Tree)
+    (sym kw proto : Tree) (rest : List Tree) (hk : x.kids = sym :: kw :: proto :: rest)
+    (h : armDefine C recI recU inp s path ii sc rd id w x = .ok w') :
+    (isPredefined (defineName C.K inp proto) = false →
+        ∃ df, w'.defines.get? (defineName C.K inp proto) = some (some df) ∧ df.ident = defineName C.K inp proto) ∧
+    (isPredefined (defineName C.K inp proto) = true → w'.defines = w.defines) := by
+  unfold armDefine at h
+  simp only [hk] at h
+  injection h with h; subst h
+  refine ⟨?_, ?_⟩
+  · intro hp
+    simp only [hp, Bool.not_false, if_true, pushLoc_defines]
+    exact ⟨_, C11_get_insert_same _ _ _, rfl⟩
+  · intro hp
+    simp only [hp, Bool.not_true, Bool.false_eq_true, if_false, pushLoc_defines]
+    unfold WState.skipPush; split <;> rfl
 
 end Sv
